@@ -8,7 +8,7 @@
 (* encoder is then run on every history (binding A).                         *)
 EXTENDS IPFIX, Json
 
-CONSTANTS Setups, EmitCases
+CONSTANTS Setups, MaxSetup, EmitCases
 
 PenX == <<0, 0, 18, 52>>
 FuzzExt == [k \in {<<PenX, 1>>, <<PenX, 2>>} |-> IF k[2] = 1 THEN "unsigned16" ELSE "string"]
@@ -26,10 +26,11 @@ TOpt   == [id |-> 256, scope |-> <<F(149, 4)>>, fields |-> <<FE(1, 2), F(82, Var
 TBig   == [id |-> 256, scope |-> <<>>, fields |-> <<F(1, 65534)>>]                \* a field longer than any datagram
 TNoMod == [id |-> 256, scope |-> <<>>, fields |-> <<F(8, 4), F(9999, 4)>>]
 TVar65 == [id |-> 256, scope |-> <<>>, fields |-> <<F(8, VarLen)>>]               \* 65535 on a non-string type
+TZOpt  == [id |-> 256, scope |-> <<F(149, 0)>>, fields |-> <<F(4, 0), F(82, 0)>>]        \* options template, every field of length 0
 T257   == [id |-> 257, scope |-> <<>>, fields |-> <<F(12, 4)>>]
 SetupTpl(n) == CASE n = "norm" -> TNorm [] n = "var" -> TVar [] n = "zlen" -> TZLen [] n = "zero" -> TZero
                  [] n = "opt" -> TOpt [] n = "big" -> TBig [] n = "nomod" -> TNoMod [] n = "var65" -> TVar65
-                 [] n = "t257" -> T257
+                 [] n = "t257" -> T257 [] n = "zopt" -> TZOpt
 SetupMsg(n) == EncMsg(H, <<EncTplSet(SetupTpl(n), 0)>>)
 
 (* skeletons of the decisive datagram *)
@@ -63,7 +64,7 @@ VARIABLES hist, cache0, phase
 vars == <<hist, cache0, phase>>
 EmptyCache == [x \in {} |-> NoTpl]
 Init == hist = <<>> /\ cache0 = EmptyCache /\ phase = "setup"
-Setup == /\ phase = "setup" /\ Len(hist) < 2
+Setup == /\ phase = "setup" /\ Len(hist) < MaxSetup
          /\ \E n \in Setups :
               LET m == SetupMsg(n) IN
               /\ hist' = Append(hist, m)
@@ -73,10 +74,18 @@ Fire == /\ phase = "setup"
         /\ \E m \in Decisive : hist' = Append(hist, m)
         /\ phase' = "fired"
         /\ UNCHANGED cache0
-Next == Setup \/ Fire
+(* a decisive datagram that changed the cache (a mutated template) is followed by data for that id *)
+FollowUps == {EncMsg(H, <<DataNorm>>), EncMsg(H, <<DataVar, EncSet(256, Zeros(9), 0)>>)}
+Follow == /\ phase = "fired"
+          /\ LET d == Decode(hist[Len(hist)], Exp, cache0) IN
+               /\ d.cache # cache0
+               /\ cache0' = d.cache
+          /\ \E m \in FollowUps : hist' = Append(hist, m)
+          /\ phase' = "followed"
+Next == Setup \/ Fire \/ Follow
 Spec == Init /\ [][Next]_vars
 
 D == Decode(hist[Len(hist)], Exp, cache0)
-Safe == phase = "fired" => Total(D) /\ OutBounded(D)
-Emit == (EmitCases /\ phase = "fired") => PrintT("CASE " \o ToJson([hist |-> hist, pc |-> D.pc, n |-> Len(D.out)]))
+Safe == phase \in {"fired", "followed"} => Total(D) /\ OutBounded(D)
+Emit == (EmitCases /\ phase \in {"fired", "followed"}) => PrintT("CASE " \o ToJson([hist |-> hist, pc |-> D.pc, n |-> Len(D.out)]))
 ===========================================================================
